@@ -53,6 +53,11 @@ SEEDS = [
     "void foo(std::vector<std::string> &v)", "volatile int x", "const volatile int *p", "int const x",
     "void foo(const int *const *pp)", "unsigned u2", "double complex z",
 ]
+# numeric literal spellings of the token grammar (docs/input.rst default values; C++ floating literals with a fraction,
+# an exponent, or both): each is a valid default value and must be carried with its value
+NUM_LITERALS = ["0", "7", "42", "3.14", "1.", ".5", "0.25", "1.5e3", "2.e-3", ".5e1", "1e-6", "1E+3", "2e5", "6E2", "1.e+2", "12e0"]
+SEEDS += ["void foo(double tol = %s)" % x for x in NUM_LITERALS]
+SEEDS += ["void foo(int a, double scale = 1e3, bool on = false)", "double arr2[2][3][4]", "void foo(const int m[2][3])"]
 CLASS_SCOPE_ONLY = {"Class1()", "Class1(int flag)", "~Class1()", "int method1() const"}
 
 ALPHABET = ["int", "double", "char", "void", "bool", "const", "unsigned", "long", "static", "struct", "enum", "class",
@@ -195,6 +200,17 @@ def parse_chunk(case):
             ns = cls if s in CLASS_SCOPE_ONLY else lib
             stats["valid_seeds_checked"] += 1
             run(s, ns, "seed", valid=True)
+        for lit in NUM_LITERALS:
+            text = "void scale(int n, double tol = %s)" % lit
+            stats["inputs"] += 1
+            try:
+                got = declast.check_decl(text, namespace=lib).params[1].init
+                if float(got) != float(lit):
+                    viol.append({"mech": "check_decl:default-value-literal-changed", "detail": "%r parsed with default %r" % (text, got),
+                                 "case": {"decl": text, "kind": "seed"}})
+                stats["literal_defaults_checked"] = stats.get("literal_defaults_checked", 0) + 1
+            except Exception:
+                pass    # reported by the seed loop above as a rejected documented declaration
     for _ in range(case["n"]):
         c = r.random()
         s = r.choice(SEEDS)
